@@ -547,6 +547,9 @@ func (server *Server) listen(sock socket.Socket, address string, New NewServerCo
 					if svrctx.sched != nil {
 						svrctx.sched.Close()
 					}
+					for _, ctx := range svrctx.streams {
+						ctx.stream.Close()
+					}
 					if svrctx.readStream != nil {
 						svrctx.readStream.Close()
 					}
